@@ -215,7 +215,7 @@ func c15names(c *an.Ctx) {
 			if !ok {
 				return
 			}
-			if n := an.FieldOf(fa).Name(); n != "Key" && n != "SubKey" {
+			if n := an.FName(an.FieldOf(fa)); n != "Key" && n != "SubKey" {
 				return
 			}
 			if _, isC := an.ConstString(st.Val); isC {
@@ -263,8 +263,8 @@ func c15names(c *an.Ctx) {
 					continue
 				}
 				if f, _ := an.LoadedField(an.Strip(cmp.X)); f != nil {
-					if _, want := need[f.Name()]; want {
-						need[f.Name()] = true
+					if _, want := need[an.FName(f)]; want {
+						need[an.FName(f)] = true
 					}
 				}
 			}
